@@ -15,6 +15,22 @@ thread_local! {
     static PANIC_MSG: RefCell<Option<String>> = const { RefCell::new(None) };
 }
 
+thread_local! {
+    static IN_IMPL: std::cell::Cell<bool> = const { std::cell::Cell::new(false) };
+}
+struct ImplGuard;
+impl ImplGuard {
+    fn enter() -> ImplGuard {
+        IN_IMPL.with(|f| f.set(true));
+        ImplGuard
+    }
+}
+impl Drop for ImplGuard {
+    fn drop(&mut self) {
+        IN_IMPL.with(|f| f.set(false));
+    }
+}
+
 pub fn install_panic_hook() {
     std::panic::set_hook(Box::new(|info| {
         let msg = if let Some(s) = info.payload().downcast_ref::<&str>() {
@@ -25,6 +41,10 @@ pub fn install_panic_hook() {
             "panic".to_string()
         };
         let loc = info.location().map(|l| format!("{}:{}", l.file(), l.line())).unwrap_or_default();
+        // a panic outside the guarded implementation calls is a defect of the harness itself: say so
+        if !IN_IMPL.with(|f| f.get()) {
+            eprintln!("apverif: harness panic: {msg} @ {loc}");
+        }
         PANIC_MSG.with(|m| *m.borrow_mut() = Some(format!("{msg} @ {loc}")));
     }));
 }
@@ -238,6 +258,7 @@ pub fn stmt_str(s: &Stmt) -> String {
 
 /// `ok tok|tok…` / `err labels|labels…` / `panic <msg>`
 pub fn lex_record(src: &str) -> String {
+    let _g = ImplGuard::enter();
     let r = catch_unwind(AssertUnwindSafe(|| match ApLang::new_from_stdin(src.to_string()).lex() {
         Ok(lexed) => {
             let toks: Vec<String> = lexed.verif_tokens().iter().map(tok_str).collect();
@@ -270,6 +291,7 @@ pub fn strip_err_kinds(model: &str) -> String {
 
 /// `lexerr n` / `ok sexpr…` / `errs n labels|…` / `panic msg`
 pub fn parse_record(src: &str) -> String {
+    let _g = ImplGuard::enter();
     let r = catch_unwind(AssertUnwindSafe(|| {
         let lexed = match ApLang::new_from_stdin(src.to_string()).lex() {
             Ok(l) => l,
@@ -357,6 +379,7 @@ pub const WALL: &str = "robot attempted to move into a wall";
 pub fn run_impl(src: &str, file_path: &str, fuel: u64, max_depth: u32) -> RunRec {
     let path = PathBuf::from(file_path);
     let mut diag_labels = vec![];
+    let _g = ImplGuard::enter();
     let r = catch_unwind(AssertUnwindSafe(|| {
         let lexed = match ApLang::new(src.to_string(), Some(path.clone())).lex() {
             Ok(l) => l,
